@@ -252,8 +252,18 @@ impl Prop for C04 {
         }
         let detail = |what: &str| format!("{what}\nreference: end={}\nwasm: end={} lines={:?}\nts:   end={} lines={:?}\n{}", end_str(&reference.end), exec_str(w), short_lines(&w.lines), exec_str(t), short_lines(&t.lines), describe(&mods));
         if w.lines != t.lines {
-          out.fail("ts-vs-wasm/printed-lines-differ", detail(&format!("printed lines differ: {}", first_diff(&w.lines, &t.lines))));
-          return out;
+          // recorded finding: `!x` / `typeof x === 'object'` stay JavaScript booleans, so an int that the
+          // optimiser derived from a negation prints as true / false; everything else must agree
+          let tokens_agree = |a: &String, b: &String| {
+            let (x, y): (Vec<&str>, Vec<&str>) = (a.split(' ').collect(), b.split(' ').collect());
+            x.len() == y.len() && x.iter().zip(&y).all(|(p, q)| p == q || (*p == "1" && *q == "true") || (*p == "0" && *q == "false"))
+          };
+          if w.lines.len() == t.lines.len() && w.lines.iter().zip(&t.lines).all(|(a, b)| tokens_agree(a, b)) {
+            out.fail("ts-vs-wasm/boolean-printed-for-int", detail(&format!("the TypeScript run prints true / false where the WebAssembly run prints 1 / 0: {}", first_diff(&w.lines, &t.lines))));
+          } else {
+            out.fail("ts-vs-wasm/printed-lines-differ", detail(&format!("printed lines differ: {}", first_diff(&w.lines, &t.lines))));
+            return out;
+          }
         }
         let abnormal = |e: &crate::engine::node::Exec| e.end == "trap" || e.end == "panic";
         let same_end = match (w.end.as_str(), t.end.as_str()) {
